@@ -41,6 +41,46 @@ func collectAssigns(w *World, pr *prover, fns []*ssa.Function) []fieldAssign {
 					// for _, row := range [...]struct{dst *T; src T}{{&to.A, from.A}, …} { if row.src != nil { *row.dst = row.src } }:
 					// one assignment per row, guarded by the loop's tests read with that row's values
 					if rows, df, table, isRow := literalTableRowsOf(st.Addr); isRow {
+						// *row.dst = helper(*row.dst, row.src): per row, the field is assigned helper(itself, that row's source)
+						if hc, isCall := unwrap(st.Val).(*ssa.Call); isCall && hc.Common().StaticCallee() != nil && w.InPkg(hc.Common().StaticCallee()) {
+							handled := false
+							for j, row := range rows {
+								efa, isFA := row[df].(*ssa.FieldAddr)
+								if !isFA {
+									continue
+								}
+								efp, okp := pr.structPath(efa, 0)
+								if !okp || len(efp.Idx) == 0 || efp.RootType.Obj().Pkg() != w.Types {
+									continue
+								}
+								var srcs []FieldPath
+								okArgs := true
+								for _, a := range hc.Common().Args {
+									a0 := unwrap(a)
+									if r3, f3, t3, ok3 := literalTableRowsOf(a0); ok3 && t3 == table && j < len(r3) {
+										srcs = append(srcs, pr.prov(r3[j][f3]).list()...)
+										continue
+									}
+									if ld, isLd := a0.(*ssa.UnOp); isLd && ld.Op == token.MUL {
+										if _, f4, t4, ok4 := literalTableRowsOf(ld.X); ok4 && t4 == table && f4 == df {
+											srcs = append(srcs, efp)
+											continue
+										}
+									}
+									if _, isConst := a0.(*ssa.Const); !isConst {
+										okArgs = false
+									}
+								}
+								if !okArgs {
+									continue
+								}
+								handled = true
+								out = append(out, fieldAssign{fn: f, instr: st, target: efp, helper: hc.Common().StaticCallee(), sources: srcs, guards: pr.dominatingGuards(b)})
+							}
+							if handled {
+								continue
+							}
+						}
 						if rows2, sf, table2, isRow2 := literalTableRowsOf(unwrap(st.Val)); isRow2 && table2 == table && len(rows2) == len(rows) {
 							for j, row := range rows {
 								efa, isFA := row[df].(*ssa.FieldAddr)
